@@ -594,7 +594,9 @@ where
         }
 
         // Not considering the whole header
-        if data.len() > self.config.max_packet_size.get() {
+        // Items are framed with a `u16` length prefix, so anything
+        // longer than that can never be put on the wire
+        if data.len() > self.config.max_packet_size.get() || data.len() > usize::from(u16::MAX) {
             return Err(Error::DataTooBig);
         }
 
